@@ -1,11 +1,482 @@
-(* Protobuf wire format subset used by the snapshot files (C11). Definitions only.
-   (grown incrementally; see the header of the final version) *)
-From AM Require Import Base.Prelude.
+(* Protobuf wire format subset used by the snapshot files of nflog and silences (C11). Definitions only.
 
-(* bytes are [list N]; Coq strings are byte strings (one ascii = one byte) *)
+   Mirrors (behaviour, not code): google.golang.org/protobuf v1.36 `protowire` (ConsumeVarint, ConsumeTag,
+   ConsumeFieldValue incl. groups), `internal/impl` message/field decoders (unknown fields skipped, known field with
+   another wire type treated as unknown, last scalar wins, repeated sub-message occurrences MERGED, packed and
+   unpacked repeated varints, map entries, oneof, proto3 UTF-8 validation of string fields, uint32/int32/enum
+   truncation), `protodelim` framing (varint length, 4 MiB default MaxSize, clean EOF only between records).
+   Field numbers are the ones in nflog/nflogpb/nflog.proto and silence/silencepb/silence.proto (documented
+   literals; they are generated code constants, tied by the codec differential of the harness).
+
+   bytes are [list N] (values < 256 in every encoder output); Coq strings are byte strings. *)
+From AM Require Import Base.Prelude Model.Nflog.
+
 Fixpoint s2b (s : string) : list N :=
   match s with
   | EmptyString => []
   | String a r => Ascii.N_of_ascii a :: s2b r
   end.
 Definition b2s (l : list N) : string := bs l.
+
+(* ---------- varint (LEB128, at most 10 bytes, value < 2^64) ---------- *)
+Fixpoint varint_enc_fuel (fuel : nat) (n : N) : list N :=
+  match fuel with
+  | O => []
+  | S f => if (n <? 128)%N then [n] else ((128 + n mod 128) :: varint_enc_fuel f (n / 128))%N
+  end.
+Definition varint_enc (n : N) : list N := varint_enc_fuel 10 n.
+
+(* protowire.ConsumeVarint: k = bytes still allowed; the 10th byte must be 0 or 1; non-minimal encodings accepted *)
+Fixpoint varint_dec_aux (k : nat) (b : list N) : option (N * list N) :=
+  match k with
+  | O => None
+  | S k' =>
+      match b with
+      | [] => None
+      | y :: r =>
+          if (y <? 128)%N then (if Nat.eqb k' 0 && (2 <=? y)%N then None else Some (y, r))
+          else match varint_dec_aux k' r with
+               | Some (v, r') => Some ((y - 128) + 128 * v, r')%N
+               | None => None
+               end
+      end
+  end.
+Definition varint_dec (b : list N) : option (N * list N) := varint_dec_aux 10 b.
+
+(* ---------- loops with explicit fuel ---------- *)
+Inductive pres (A : Type) := POk (a : A) | PErr | PFuel.
+Arguments POk {A} a.
+Arguments PErr {A}.
+Arguments PFuel {A}.
+
+(* parse items with p until the input is empty *)
+Fixpoint many {A} (p : list N -> option (A * list N)) (fuel : nat) (b : list N) : pres (list A) :=
+  match b with
+  | [] => POk []
+  | _ => match fuel with
+         | O => PFuel
+         | S f => match p b with
+                  | None => PErr
+                  | Some (x, r) => match many p f r with POk xs => POk (x :: xs) | PErr => PErr | PFuel => PFuel end
+                  end
+         end
+  end.
+(* fuel = length of the input is always enough when p consumes at least one byte (Proofs/WireProofs.v:
+   many_fuel_enough); the internal loops therefore read "out of fuel" as an error *)
+Definition many_opt {A} (p : list N -> option (A * list N)) (b : list N) : option (list A) :=
+  match many p (length b) b with POk xs => Some xs | _ => None end.
+
+(* ---------- fields ---------- *)
+Inductive wval :=
+| WVar (n : N)            (* wire type 0 *)
+| WI64 (b : list N)       (* wire type 1: 8 bytes *)
+| WLen (b : list N)       (* wire type 2 *)
+| WI32 (b : list N)       (* wire type 5: 4 bytes *)
+| WGroup.                 (* wire type 3: a (deprecated) group, skipped *)
+Notation field := (N * wval)%type (only parsing).
+
+(* the first n bytes and the rest; None when fewer than n bytes are left (cost: n steps, whatever the input size) *)
+Fixpoint split_exact_aux (b : list N) (n : N) : option (list N * list N) :=
+  if (n =? 0)%N then Some ([], b) else
+  match b with
+  | [] => None
+  | x :: r => match split_exact_aux r (N.pred n) with Some (h, t) => Some (x :: h, t) | None => None end
+  end.
+Definition split_exact (n : N) (b : list N) : option (list N * list N) := split_exact_aux b n.
+
+(* protowire.ConsumeFieldValue for a start-group tag: skip nested fields up to the matching end-group tag.
+   stack = field numbers of the open groups (innermost first). Inside groups protowire.ConsumeTag accepts field
+   numbers up to MaxInt32. Nesting deeper than DefaultRecursionLimit is an error. *)
+Definition max_group_depth : N := 10001.
+Fixpoint skip_groups (fuel : nat) (stack : list N) (b : list N) : pres (list N) :=
+  match stack with
+  | [] => POk b
+  | top :: stack' =>
+      match fuel with
+      | O => PFuel
+      | S f =>
+          match varint_dec b with
+          | None => PErr
+          | Some (tag, r) =>
+              let num := (tag / 8)%N in
+              if (num <? 1)%N || (2147483647 <? num)%N then PErr else
+              match (tag mod 8)%N with
+              | 0%N => match varint_dec r with Some (_, r') => skip_groups f stack r' | None => PErr end
+              | 1%N => match split_exact 8 r with Some (_, r') => skip_groups f stack r' | None => PErr end
+              | 2%N => match varint_dec r with
+                       | Some (n, r1) => match split_exact n r1 with Some (_, r') => skip_groups f stack r' | None => PErr end
+                       | None => PErr
+                       end
+              | 5%N => match split_exact 4 r with Some (_, r') => skip_groups f stack r' | None => PErr end
+              | 3%N => if (max_group_depth <=? N.of_nat (length stack))%N then PErr else skip_groups f (num :: stack) r
+              | 4%N => if (num =? top)%N then skip_groups f stack' r else PErr
+              | _ => PErr
+              end
+          end
+      end
+  end.
+Definition skip_group (num : N) (b : list N) : option (list N) :=
+  match skip_groups (length b) [num] b with POk r => Some r | _ => None end.
+
+Definition max_field_number : N := 536870911.
+
+(* one field of a message: tag, then the value by wire type *)
+Definition parse_field (b : list N) : option ((N * wval) * list N) :=
+  match varint_dec b with
+  | None => None
+  | Some (tag, r) =>
+      let num := (tag / 8)%N in
+      if (num <? 1)%N || (max_field_number <? num)%N then None else
+      match (tag mod 8)%N with
+      | 0%N => match varint_dec r with Some (v, r') => Some ((num, WVar v), r') | None => None end
+      | 1%N => match split_exact 8 r with Some (v, r') => Some ((num, WI64 v), r') | None => None end
+      | 2%N => match varint_dec r with
+               | Some (n, r1) => match split_exact n r1 with Some (v, r') => Some ((num, WLen v), r') | None => None end
+               | None => None
+               end
+      | 5%N => match split_exact 4 r with Some (v, r') => Some ((num, WI32 v), r') | None => None end
+      | 3%N => match skip_group num r with Some r' => Some ((num, WGroup), r') | None => None end
+      | _ => None
+      end
+  end.
+
+Definition parse_msg (b : list N) : option (list (N * wval)) := many_opt parse_field b.
+
+Definition tag_of (num wt : N) : list N := varint_enc (num * 8 + wt).
+Definition enc_field (f : N * wval) : list N :=
+  match f with
+  | (num, WVar v) => tag_of num 0 ++ varint_enc v
+  | (num, WI64 b) => tag_of num 1 ++ b
+  | (num, WLen b) => tag_of num 2 ++ varint_enc (N.of_nat (length b)) ++ b
+  | (num, WI32 b) => tag_of num 5 ++ b
+  | (num, WGroup) => tag_of num 3 ++ tag_of num 4
+  end.
+Definition enc_fields (fs : list (N * wval)) : list N := concat (map enc_field fs).
+
+(* fold with failure *)
+Fixpoint foldM {S X} (f : S -> X -> option S) (l : list X) (s : S) : option S :=
+  match l with
+  | [] => Some s
+  | x :: r => match f s x with Some s' => foldM f r s' | None => None end
+  end.
+
+(* ---------- scalars ---------- *)
+Definition two64 : Z := 18446744073709551616.
+Definition two63 : Z := 9223372036854775808.
+Definition two32 : Z := 4294967296.
+Definition two31 : Z := 2147483648.
+Definition int64_of (n : N) : Z := let m := Z.of_N n mod two64 in if m <? two63 then m else m - two64.
+Definition int32_of (n : N) : Z := let m := Z.of_N n mod two32 in if m <? two31 then m else m - two32.
+(* a signed value as the uint64 that is varint-encoded (int32 and enums are sign-extended to 64 bits) *)
+Definition u64_of_z (z : Z) : N := Z.to_N (if z <? 0 then z + two64 else z).
+
+Fixpoint le_bytes (k : nat) (n : N) : list N :=
+  match k with O => [] | S k' => (n mod 256 :: le_bytes k' (n / 256))%N end.
+Fixpoint le_val (b : list N) : N :=
+  match b with [] => 0%N | x :: r => (x + 256 * le_val r)%N end.
+
+(* utf8.Valid *)
+Definition cont (b : N) : bool := (128 <=? b)%N && (b <=? 191)%N.
+Fixpoint utf8_valid (l : list N) : bool :=
+  match l with
+  | [] => true
+  | a :: r =>
+      if (a <? 128)%N then utf8_valid r
+      else if (194 <=? a)%N && (a <=? 223)%N then
+        match r with b :: r' => cont b && utf8_valid r' | _ => false end
+      else if (a =? 224)%N then
+        match r with b :: c :: r' => (160 <=? b)%N && (b <=? 191)%N && cont c && utf8_valid r' | _ => false end
+      else if ((225 <=? a)%N && (a <=? 236)%N) || (a =? 238)%N || (a =? 239)%N then
+        match r with b :: c :: r' => cont b && cont c && utf8_valid r' | _ => false end
+      else if (a =? 237)%N then
+        match r with b :: c :: r' => (128 <=? b)%N && (b <=? 159)%N && cont c && utf8_valid r' | _ => false end
+      else if (a =? 240)%N then
+        match r with b :: c :: d :: r' => (144 <=? b)%N && (b <=? 191)%N && cont c && cont d && utf8_valid r' | _ => false end
+      else if (241 <=? a)%N && (a <=? 243)%N then
+        match r with b :: c :: d :: r' => cont b && cont c && cont d && utf8_valid r' | _ => false end
+      else if (a =? 244)%N then
+        match r with b :: c :: d :: r' => (128 <=? b)%N && (b <=? 143)%N && cont c && cont d && utf8_valid r' | _ => false end
+      else false
+  end.
+Definition str_ok (s : string) : bool := utf8_valid (s2b s).
+
+(* proto3 string field: UTF-8 checked on decode *)
+Definition dec_str (b : list N) : option string := if utf8_valid b then Some (b2s b) else None.
+
+(* field builders of the encoders: proto3 scalars are omitted when they have the default value *)
+Definition f_str (num : N) (s : string) : list (N * wval) :=
+  match s with EmptyString => [] | _ => [(num, WLen (s2b s))] end.
+Definition f_var (num : N) (n : N) : list (N * wval) := if (n =? 0)%N then [] else [(num, WVar n)].
+Definition f_int (num : N) (z : Z) : list (N * wval) := if z =? 0 then [] else [(num, WVar (u64_of_z z))].
+Definition f_bool (num : N) (b : bool) : list (N * wval) := if b then [(num, WVar 1)] else [].
+Definition f_msg {A} (num : N) (enc : A -> list (N * wval)) (o : option A) : list (N * wval) :=
+  match o with Some x => [(num, WLen (enc_fields (enc x)))] | None => [] end.
+Definition f_rep {A} (num : N) (enc : A -> list (N * wval)) (l : list A) : list (N * wval) :=
+  map (fun x => (num, WLen (enc_fields (enc x)))) l.
+Definition f_packed (num : N) (l : list N) : list (N * wval) :=
+  match l with [] => [] | _ => [(num, WLen (concat (map varint_enc l)))] end.
+
+Definition dec_packed (b : list N) : option (list N) := many_opt varint_dec b.
+
+(* association lists for protobuf maps: a later entry with the same key replaces the earlier one *)
+Fixpoint alist_set {V} (k : string) (v : V) (l : list (string * V)) : list (string * V) :=
+  match l with
+  | [] => [(k, v)]
+  | (k', v') :: r => if String.eqb k' k then (k, v) :: r else (k', v') :: alist_set k v r
+  end.
+
+(* ---------- google.protobuf.Timestamp {1: int64 seconds, 2: int32 nanos} ---------- *)
+Record wts := mkTs { t_sec : Z; t_nanos : Z }.
+Global Instance wts_eq_dec : EqDecision wts. Proof. solve_decision. Defined.
+Definition ts0 : wts := mkTs 0 0.
+Definition fields_ts (t : wts) : list (N * wval) := f_int 1 (t_sec t) ++ f_int 2 (t_nanos t).
+Definition upd_ts (t : wts) (f : N * wval) : option wts :=
+  match f with
+  | (1%N, WVar n) => Some (mkTs (int64_of n) (t_nanos t))
+  | (2%N, WVar n) => Some (mkTs (t_sec t) (int32_of n))
+  | _ => Some t
+  end.
+Definition dec_ts_into (t : wts) (b : list N) : option wts :=
+  match parse_msg b with Some fs => foldM upd_ts fs t | None => None end.
+Definition merge_ts (o : option wts) (b : list N) : option (option wts) :=
+  match dec_ts_into (default ts0 o) b with Some t => Some (Some t) | None => None end.
+
+(* ---------- nflogpb.Receiver {1: string group_name, 2: string integration, 3: uint32 idx} ---------- *)
+Record wrecv := mkRecv { r_group : string; r_integ : string; r_idx : N }.
+Global Instance wrecv_eq_dec : EqDecision wrecv. Proof. solve_decision. Defined.
+Definition recv0 : wrecv := mkRecv "" "" 0.
+Definition fields_recv (r : wrecv) : list (N * wval) :=
+  f_str 1 (r_group r) ++ f_str 2 (r_integ r) ++ f_var 3 (r_idx r).
+Definition upd_recv (r : wrecv) (f : N * wval) : option wrecv :=
+  match f with
+  | (1%N, WLen b) => match dec_str b with Some s => Some (mkRecv s (r_integ r) (r_idx r)) | None => None end
+  | (2%N, WLen b) => match dec_str b with Some s => Some (mkRecv (r_group r) s (r_idx r)) | None => None end
+  | (3%N, WVar n) => Some (mkRecv (r_group r) (r_integ r) (n mod 4294967296)%N)
+  | _ => Some r
+  end.
+Definition dec_recv_into (r : wrecv) (b : list N) : option wrecv :=
+  match parse_msg b with Some fs => foldM upd_recv fs r | None => None end.
+
+(* ---------- nflogpb.ReceiverDataValue oneof {1: string str_val, 2: int64 int_val, 3: double double_val} ---------- *)
+(* None = no member set; doubles are their 64-bit pattern (Nflog.rdv) *)
+Definition fields_rdv (v : option rdv) : list (N * wval) :=
+  match v with
+  | None => []
+  | Some (RStr s) => [(1%N, WLen (s2b s))]
+  | Some (RInt z) => [(2%N, WVar (u64_of_z z))]
+  | Some (RDbl bits) => [(3%N, WI64 (le_bytes 8 (Z.to_N bits)))]
+  end.
+Definition upd_rdv (v : option rdv) (f : N * wval) : option (option rdv) :=
+  match f with
+  | (1%N, WLen b) => match dec_str b with Some s => Some (Some (RStr s)) | None => None end
+  | (2%N, WVar n) => Some (Some (RInt (int64_of n)))
+  | (3%N, WI64 b) => Some (Some (RDbl (Z.of_N (le_val b))))
+  | _ => Some v
+  end.
+Definition dec_rdv_into (v : option rdv) (b : list N) : option (option rdv) :=
+  match parse_msg b with Some fs => foldM upd_rdv fs v | None => None end.
+
+(* map<string, ReceiverDataValue> entry {1: key, 2: value}; both always written *)
+Definition fields_dentry (kv : string * option rdv) : list (N * wval) :=
+  [(1%N, WLen (s2b (fst kv))); (2%N, WLen (enc_fields (fields_rdv (snd kv))))].
+Definition upd_dentry (kv : string * option rdv) (f : N * wval) : option (string * option rdv) :=
+  match f with
+  | (1%N, WLen b) => match dec_str b with Some s => Some (s, snd kv) | None => None end
+  | (2%N, WLen b) => match dec_rdv_into (snd kv) b with Some v => Some (fst kv, v) | None => None end
+  | _ => Some kv
+  end.
+Definition dec_dentry (b : list N) : option (string * option rdv) :=
+  match parse_msg b with Some fs => foldM upd_dentry fs ("", None) | None => None end.
+
+(* ---------- nflogpb.Entry ---------- *)
+Record wentry := mkWEntry {
+  we_gkey : string;            (* 1 bytes group_key *)
+  we_recv : option wrecv;      (* 2 *)
+  we_ghash : string;           (* 3 bytes group_hash *)
+  we_resolved : bool;          (* 4 *)
+  we_ts : option wts;          (* 5 *)
+  we_firing : list N;          (* 6 repeated uint64, packed *)
+  we_resalerts : list N;       (* 7 repeated uint64, packed *)
+  we_data : list (string * option rdv) }.  (* 8 map *)
+Global Instance wentry_eq_dec : EqDecision wentry. Proof. solve_decision. Defined.
+Definition entry0 : wentry := mkWEntry "" None "" false None [] [] [].
+Definition fields_entry (e : wentry) : list (N * wval) :=
+  f_str 1 (we_gkey e) ++ f_msg 2 fields_recv (we_recv e) ++ f_str 3 (we_ghash e) ++ f_bool 4 (we_resolved e) ++
+  f_msg 5 fields_ts (we_ts e) ++ f_packed 6 (we_firing e) ++ f_packed 7 (we_resalerts e) ++
+  f_rep 8 fields_dentry (we_data e).
+Definition upd_entry (e : wentry) (f : N * wval) : option wentry :=
+  let '(mkWEntry gk rc gh rs ts fi ra da) := e in
+  match f with
+  | (1%N, WLen b) => Some (mkWEntry (b2s b) rc gh rs ts fi ra da)
+  | (2%N, WLen b) => match dec_recv_into (default recv0 rc) b with
+                     | Some r => Some (mkWEntry gk (Some r) gh rs ts fi ra da) | None => None end
+  | (3%N, WLen b) => Some (mkWEntry gk rc (b2s b) rs ts fi ra da)
+  | (4%N, WVar n) => Some (mkWEntry gk rc gh (negb (n =? 0)%N) ts fi ra da)
+  | (5%N, WLen b) => match merge_ts ts b with Some t => Some (mkWEntry gk rc gh rs t fi ra da) | None => None end
+  | (6%N, WVar n) => Some (mkWEntry gk rc gh rs ts (fi ++ [n]) ra da)
+  | (6%N, WLen b) => match dec_packed b with Some l => Some (mkWEntry gk rc gh rs ts (fi ++ l) ra da) | None => None end
+  | (7%N, WVar n) => Some (mkWEntry gk rc gh rs ts fi (ra ++ [n]) da)
+  | (7%N, WLen b) => match dec_packed b with Some l => Some (mkWEntry gk rc gh rs ts fi (ra ++ l) da) | None => None end
+  | (8%N, WLen b) => match dec_dentry b with
+                     | Some (k, v) => Some (mkWEntry gk rc gh rs ts fi ra (alist_set k v da)) | None => None end
+  | _ => Some e
+  end.
+Definition dec_entry_into (e : wentry) (b : list N) : option wentry :=
+  match parse_msg b with Some fs => foldM upd_entry fs e | None => None end.
+
+(* ---------- nflogpb.MeshEntry {1: Entry entry, 2: Timestamp expires_at} ---------- *)
+Record wmesh := mkMesh { wm_entry : option wentry; wm_exp : option wts }.
+Global Instance wmesh_eq_dec : EqDecision wmesh. Proof. solve_decision. Defined.
+Definition fields_mesh (m : wmesh) : list (N * wval) :=
+  f_msg 1 fields_entry (wm_entry m) ++ f_msg 2 fields_ts (wm_exp m).
+Definition upd_mesh (m : wmesh) (f : N * wval) : option wmesh :=
+  match f with
+  | (1%N, WLen b) => match dec_entry_into (default entry0 (wm_entry m)) b with
+                     | Some e => Some (mkMesh (Some e) (wm_exp m)) | None => None end
+  | (2%N, WLen b) => match merge_ts (wm_exp m) b with Some t => Some (mkMesh (wm_entry m) t) | None => None end
+  | _ => Some m
+  end.
+Definition enc_mesh (m : wmesh) : list N := enc_fields (fields_mesh m).
+Definition dec_mesh (b : list N) : option wmesh :=
+  match parse_msg b with Some fs => foldM upd_mesh fs (mkMesh None None) | None => None end.
+
+(* ---------- silencepb ---------- *)
+(* Matcher {1: enum type, 2: string name, 3: string pattern} *)
+Record wmatcher := mkWM { wm_type : Z; wm_name : string; wm_pattern : string }.
+Global Instance wmatcher_eq_dec : EqDecision wmatcher. Proof. solve_decision. Defined.
+Definition fields_matcher (m : wmatcher) : list (N * wval) :=
+  f_int 1 (wm_type m) ++ f_str 2 (wm_name m) ++ f_str 3 (wm_pattern m).
+Definition upd_matcher (m : wmatcher) (f : N * wval) : option wmatcher :=
+  match f with
+  | (1%N, WVar n) => Some (mkWM (int32_of n) (wm_name m) (wm_pattern m))
+  | (2%N, WLen b) => match dec_str b with Some s => Some (mkWM (wm_type m) s (wm_pattern m)) | None => None end
+  | (3%N, WLen b) => match dec_str b with Some s => Some (mkWM (wm_type m) (wm_name m) s) | None => None end
+  | _ => Some m
+  end.
+Definition dec_matcher (b : list N) : option wmatcher :=
+  match parse_msg b with Some fs => foldM upd_matcher fs (mkWM 0 "" "") | None => None end.
+
+(* MatcherSet {1: repeated Matcher} *)
+Definition fields_mset (ms : list wmatcher) : list (N * wval) := f_rep 1 fields_matcher ms.
+Definition upd_mset (ms : list wmatcher) (f : N * wval) : option (list wmatcher) :=
+  match f with
+  | (1%N, WLen b) => match dec_matcher b with Some m => Some (ms ++ [m]) | None => None end
+  | _ => Some ms
+  end.
+Definition dec_mset (b : list N) : option (list wmatcher) :=
+  match parse_msg b with Some fs => foldM upd_mset fs [] | None => None end.
+
+(* Comment {1: string author, 2: string comment, 3: Timestamp timestamp} *)
+Record wcomment := mkWC { wc_author : string; wc_comment : string; wc_ts : option wts }.
+Global Instance wcomment_eq_dec : EqDecision wcomment. Proof. solve_decision. Defined.
+Definition fields_comment (c : wcomment) : list (N * wval) :=
+  f_str 1 (wc_author c) ++ f_str 2 (wc_comment c) ++ f_msg 3 fields_ts (wc_ts c).
+Definition upd_comment (c : wcomment) (f : N * wval) : option wcomment :=
+  match f with
+  | (1%N, WLen b) => match dec_str b with Some s => Some (mkWC s (wc_comment c) (wc_ts c)) | None => None end
+  | (2%N, WLen b) => match dec_str b with Some s => Some (mkWC (wc_author c) s (wc_ts c)) | None => None end
+  | (3%N, WLen b) => match merge_ts (wc_ts c) b with Some t => Some (mkWC (wc_author c) (wc_comment c) t) | None => None end
+  | _ => Some c
+  end.
+Definition dec_comment (b : list N) : option wcomment :=
+  match parse_msg b with Some fs => foldM upd_comment fs (mkWC "" "" None) | None => None end.
+
+(* map<string,string> entry *)
+Definition fields_aentry (kv : string * string) : list (N * wval) :=
+  [(1%N, WLen (s2b (fst kv))); (2%N, WLen (s2b (snd kv)))].
+Definition upd_aentry (kv : string * string) (f : N * wval) : option (string * string) :=
+  match f with
+  | (1%N, WLen b) => match dec_str b with Some s => Some (s, snd kv) | None => None end
+  | (2%N, WLen b) => match dec_str b with Some s => Some (fst kv, s) | None => None end
+  | _ => Some kv
+  end.
+Definition dec_aentry (b : list N) : option (string * string) :=
+  match parse_msg b with Some fs => foldM upd_aentry fs ("", "") | None => None end.
+
+(* Silence *)
+Record wsilence := mkWS {
+  ws_id : string;                        (* 1 *)
+  ws_matchers : list wmatcher;           (* 2 legacy *)
+  ws_starts : option wts;                (* 3 *)
+  ws_ends : option wts;                  (* 4 *)
+  ws_updated : option wts;               (* 5 *)
+  ws_comments : list wcomment;           (* 7 legacy *)
+  ws_created_by : string;                (* 8 *)
+  ws_comment : string;                   (* 9 *)
+  ws_annotations : list (string * string); (* 10 *)
+  ws_msets : list (list wmatcher);       (* 11 *)
+  ws_rmsets : list (list wmatcher) }.    (* 12 *)
+Global Instance wsilence_eq_dec : EqDecision wsilence. Proof. solve_decision. Defined.
+Definition sil0 : wsilence := mkWS "" [] None None None [] "" "" [] [] [].
+Definition fields_silence (s : wsilence) : list (N * wval) :=
+  f_str 1 (ws_id s) ++ f_rep 2 fields_matcher (ws_matchers s) ++ f_msg 3 fields_ts (ws_starts s) ++
+  f_msg 4 fields_ts (ws_ends s) ++ f_msg 5 fields_ts (ws_updated s) ++ f_rep 7 fields_comment (ws_comments s) ++
+  f_str 8 (ws_created_by s) ++ f_str 9 (ws_comment s) ++ f_rep 10 fields_aentry (ws_annotations s) ++
+  f_rep 11 fields_mset (ws_msets s) ++ f_rep 12 fields_mset (ws_rmsets s).
+Definition upd_silence (s : wsilence) (f : N * wval) : option wsilence :=
+  let '(mkWS id ms st en up cs cb cm an s1 s2) := s in
+  match f with
+  | (1%N, WLen b) => match dec_str b with Some x => Some (mkWS x ms st en up cs cb cm an s1 s2) | None => None end
+  | (2%N, WLen b) => match dec_matcher b with Some x => Some (mkWS id (ms ++ [x]) st en up cs cb cm an s1 s2) | None => None end
+  | (3%N, WLen b) => match merge_ts st b with Some x => Some (mkWS id ms x en up cs cb cm an s1 s2) | None => None end
+  | (4%N, WLen b) => match merge_ts en b with Some x => Some (mkWS id ms st x up cs cb cm an s1 s2) | None => None end
+  | (5%N, WLen b) => match merge_ts up b with Some x => Some (mkWS id ms st en x cs cb cm an s1 s2) | None => None end
+  | (7%N, WLen b) => match dec_comment b with Some x => Some (mkWS id ms st en up (cs ++ [x]) cb cm an s1 s2) | None => None end
+  | (8%N, WLen b) => match dec_str b with Some x => Some (mkWS id ms st en up cs x cm an s1 s2) | None => None end
+  | (9%N, WLen b) => match dec_str b with Some x => Some (mkWS id ms st en up cs cb x an s1 s2) | None => None end
+  | (10%N, WLen b) => match dec_aentry b with
+                      | Some (k, v) => Some (mkWS id ms st en up cs cb cm (alist_set k v an) s1 s2) | None => None end
+  | (11%N, WLen b) => match dec_mset b with Some x => Some (mkWS id ms st en up cs cb cm an (s1 ++ [x]) s2) | None => None end
+  | (12%N, WLen b) => match dec_mset b with Some x => Some (mkWS id ms st en up cs cb cm an s1 (s2 ++ [x])) | None => None end
+  | _ => Some s
+  end.
+Definition dec_silence_into (s : wsilence) (b : list N) : option wsilence :=
+  match parse_msg b with Some fs => foldM upd_silence fs s | None => None end.
+
+(* MeshSilence {1: Silence silence, 2: Timestamp expires_at} *)
+Record wmeshsil := mkMS { ms_sil : option wsilence; ms_exp : option wts }.
+Global Instance wmeshsil_eq_dec : EqDecision wmeshsil. Proof. solve_decision. Defined.
+Definition fields_meshsil (m : wmeshsil) : list (N * wval) :=
+  f_msg 1 fields_silence (ms_sil m) ++ f_msg 2 fields_ts (ms_exp m).
+Definition upd_meshsil (m : wmeshsil) (f : N * wval) : option wmeshsil :=
+  match f with
+  | (1%N, WLen b) => match dec_silence_into (default sil0 (ms_sil m)) b with
+                     | Some s => Some (mkMS (Some s) (ms_exp m)) | None => None end
+  | (2%N, WLen b) => match merge_ts (ms_exp m) b with Some t => Some (mkMS (ms_sil m) t) | None => None end
+  | _ => Some m
+  end.
+Definition enc_meshsil (m : wmeshsil) : list N := enc_fields (fields_meshsil m).
+Definition dec_meshsil (b : list N) : option wmeshsil :=
+  match parse_msg b with Some fs => foldM upd_meshsil fs (mkMS None None) | None => None end.
+
+(* ---------- protodelim framing and whole files ---------- *)
+Definition max_size : N := 4194304. (* protodelim default MaxSize (4 MiB) *)
+Definition frame (body : list N) : list N := varint_enc (N.of_nat (length body)) ++ body.
+Definition read_frame (b : list N) : option (list N * list N) :=
+  match varint_dec b with
+  | None => None
+  | Some (n, r) => if (max_size <? n)%N then None else split_exact n r
+  end.
+
+Fixpoint mapM {A B} (f : A -> option B) (l : list A) : option (list B) :=
+  match l with
+  | [] => Some []
+  | x :: r => match f x with Some y => match mapM f r with Some ys => Some (y :: ys) | None => None end | None => None end
+  end.
+
+Section File.
+  Context {A : Type} (enc : A -> list N) (dec : list N -> option A).
+  Definition encode_file (st : list A) : list N := concat (map (fun x => frame (enc x)) st).
+  (* records in file order; any malformed or truncated record fails the whole file *)
+  Definition decode_file (b : list N) : res (list A) :=
+    match many read_frame (length b) b with
+    | POk frames => match mapM dec frames with Some xs => Ok xs | None => Err "record" end
+    | PErr => Err "framing"
+    | PFuel => Panic
+    end.
+End File.
+
+Definition encode_nflog := encode_file enc_mesh.
+Definition decode_nflog := decode_file dec_mesh.
+Definition encode_silences := encode_file enc_meshsil.
+Definition decode_silences := decode_file dec_meshsil.
